@@ -44,6 +44,35 @@ theorem formationCore_stages {ps : List Proto} {wrap : Option Int} {cs : List Ca
                 injection h with h
                 exact ⟨hgroups, un1, t1, igroups, un2, t2, t3, singles, hH, hB1, hI, hB2, hB3, hS, h.symm⟩
 
+/-- what `_find_hybrids` leaves unassigned: exactly the protoclusters in none of its groups -/
+theorem findHybrids_un_exact {clusters : List Proto} {wrap : Option Int} {hg : List (List Proto)} {un : List Proto}
+    (h : findHybrids clusters wrap = .ok (hg, un)) :
+    ∀ p, p ∈ un ↔ p ∈ clusters ∧ ∀ g, g ∈ hg → p ∉ g := by
+  have hcov := findHybrids_cover h
+  unfold findHybrids at h
+  split at h
+  · cases h
+  · dsimp only at h
+    split at h
+    · cases h
+    · rename_i extended hext
+      injection h with h
+      injection h with h1 h2
+      subst h1; subst h2
+      intro p
+      constructor
+      · intro hp
+        have hp' := mem_sortProtos.1 hp
+        simp only [List.mem_filter, Bool.not_eq_true', List.contains_eq_mem, decide_eq_false_iff_not] at hp'
+        refine ⟨hp'.1.1, ?_⟩
+        intro g hg hpg
+        obtain ⟨e, he, rfl⟩ := List.mem_map.1 hg
+        exact hp'.2 (List.mem_flatten.2 ⟨e, he, mem_sortProtos.1 hpg⟩)
+      · rintro ⟨hpc, hno⟩
+        rcases hcov p hpc with ⟨g, hg, hpg⟩ | hun
+        · exact absurd hpg (hno g hg)
+        · exact hun
+
 /-- The documented outcome on a linear record, stage by stage.  Every clause is stated with the
     notions the executable reference is made of: chain classes (`Linked`) of `shareGroups` /
     `overlapGroups`, containment in the connected core, the order-free table semantics `PassDesc`
@@ -58,12 +87,12 @@ structure RefinesLinear (ps : List Proto) (cs : List Cand) : Prop where
         ∀ p, p ∈ sortProtos ps → (∀ q, q ∈ sortProtos ps → q ≠ p → shares p q = false) →
           (p ∈ g ↔ locationContainsOther core p.core = true)) ∧
     (∀ a b, Linked (shareGroups (sortProtos ps)) a b → ∃ g, g ∈ hg ∧ a ∈ g ∧ b ∈ g) ∧
-    (∀ p, p ∈ ps → (∃ g, g ∈ hg ∧ p ∈ g) ∨ p ∈ un1) ∧ (∀ p, p ∈ un1 → p ∈ ps) ∧
+    (∀ p, p ∈ un1 ↔ p ∈ ps ∧ ∀ g, g ∈ hg → p ∉ g) ∧
     PassDesc none .hybrid ⟨[], []⟩ t1 hg ∧
     -- interleaved: chain classes of "cores overlap" over hybrid candidates and unabsorbed protoclusters
     withCores none (sortCands t1.values) = .ok cc ∧
     (∀ a b, (∃ r, r ∈ ig ∧ a ∈ r ∧ b ∈ r) ↔ Linked (overlapGroups (interleaveUnits un1 cc)) a b) ∧
-    (∀ p, p ∈ un1 → (∃ g, g ∈ ig ∧ p ∈ g) ∨ p ∈ un2 ∨ ∃ c, c ∈ t1.values ∧ p ∈ c.members) ∧ (∀ p, p ∈ un2 → p ∈ un1) ∧
+    (∀ p, p ∈ un1 → (∃ g, g ∈ ig ∧ p ∈ g) ∨ p ∈ un2) ∧ (∀ p, p ∈ un2 → p ∈ un1) ∧
     PassDesc none .interleaved t1 t2 ig ∧
     -- neighbouring: chain classes of "extents overlap" over all candidates so far and the remaining protoclusters
     (∀ a b, (∃ r, r ∈ ng ∧ a ∈ r ∧ b ∈ r) ↔ Linked (overlapGroups (neighbourUnits un2 (sortCands t2.values))) a b) ∧
@@ -130,15 +159,20 @@ theorem formation_refines_linear {ps : List Proto} {cs : List Cand} (hn : ps.Nod
   have hvc : ∀ p, p ∈ sortProtos ps → ValidCore p := fun p hp => (hv p (hps0 p hp)).2
   refine ⟨hg, un1, t1, cc, ig, un2, t2, findNeighbouring un2 (sortCands t2.values), t3,
     sortProtos (dedup (un2 ++ t3.singles)), singles,
-    findHybrids_complete_linear hH hun0 hvc, (findHybrids_classes hH hun0).1, ?_, fun p hp => hps0 p (hH3 p hp), d1,
+    findHybrids_complete_linear hH hun0 hvc, (findHybrids_classes hH hun0).1, ?_, d1,
     hcc, hinter, ?_, hI3, d2, fun a b => findNeighbouring_classes un2 (sortCands t2.values) a b, d3, ?_, ?_, ?_, ?_⟩
-  · intro p hp
-    exact findHybrids_cover hH p (mem_sortProtos.2 hp)
+  · intro p
+    rw [findHybrids_un_exact hH p, mem_sortProtos]
   · intro p hp
     rcases findInterleaved_cover hI p hp with h1 | h1 | ⟨c, hc, hpc⟩
     · exact Or.inl h1
-    · exact Or.inr (Or.inl h1)
-    · exact Or.inr (Or.inr ⟨c, mem_sortCands.1 hc, hpc⟩)
+    · exact Or.inr h1
+    · -- the members of the hybrid candidates are the members of the hybrid groups, which `un1` avoids
+      exfalso
+      obtain ⟨k, hk⟩ := mem_values.1 (mem_sortCands.1 hc)
+      rcases (d1.members k p).1 ⟨c, hk, hpc⟩ with ⟨c0, hc0, _⟩ | ⟨g, hg', _, hpg⟩
+      · cases hc0
+      · exact ((findHybrids_un_exact hH p).1 hp).2 g hg' hpg
   · intro p
     rw [mem_sortProtos, mem_dedup, List.mem_append]
   · intro c hc
